@@ -68,7 +68,7 @@ def main():
                 "engine": "avrolint",
                 "level_claimed": {"category": "other",
                                   "text": "static analysis deciding structural necessary conditions of the property on the current source: " + text + ". It does not decide the run-time behaviour itself.",
-                                  "design_ref": "DESIGN.md section 2, " + pid},
+                                  "design_ref": "DESIGN.md section 3, " + pid},
                 "level_note": "trusts rustc's MIR construction and trait resolution, std/serde/codec libraries, and the transcribed specification tables",
                 "technique": tech,
             })
